@@ -40,6 +40,7 @@ Proof.
   destruct (consume_varint b) as [m n].
   destruct (Z.ltb_spec n 0) as [Hn|Hn]; [left; exact Hn|].
   destruct Hb as [Hb|[Hb|Hb]]; [unfold errTruncated in Hb; lia|unfold errOverflow in Hb; lia|].
+  rewrite not_has_len_z.
   destruct (Z.ltb_spec (Z.of_nat (length (skipn (Z.to_nat n) b))) m) as [Hm|Hm]; [left; unfold errTruncated; lia|].
   right. rewrite skipn_length in Hm. lia.
 Qed.
@@ -48,7 +49,7 @@ Qed.
 Lemma next_field_err_sticky n st : err st <> None -> err (next_field n st) <> None.
 Proof.
   intros H. unfold next_field.
-  destruct ((n <? 0) || (Z.of_nat (length (buf st)) <? n)); [cbn; discriminate|].
+  destruct ((n <? 0) || negb (has_len_z (buf st) n)); [cbn; discriminate|].
   destruct (skipn (Z.to_nat n) (buf st)); [exact H|].
   destruct (consume_tag (z :: l)) as [[f w] k].
   destruct (k <? 0); [cbn; discriminate|].
@@ -67,7 +68,7 @@ Theorem next_field_invalid_number num wt rest pf0 pw0 e :
   err (next_field 0 {| pf := pf0; pw := pw0; buf := spec_tag num wt ++ rest; err := e |}) = Some (0, EFieldNum).
 Proof.
   intros Hn Hw. change (2 ^ 29 - 1) with 536870911 in Hn. change (2 ^ 31 - 1) with 2147483647 in Hn.
-  unfold next_field. cbn [buf pf pw err]. cbn [Z.ltb Z.compare orb].
+  unfold next_field. rewrite not_has_len_z. cbn [buf pf pw err]. cbn [Z.ltb Z.compare orb].
   replace (Z.of_nat (length (spec_tag num wt ++ rest)) <? 0) with false by (symmetry; apply Z.ltb_ge; lia).
   cbn [orb Z.to_nat skipn].
   destruct (spec_tag num wt ++ rest) as [|y t] eqn:E.
@@ -84,7 +85,7 @@ Theorem next_field_truncated_tag pf0 pw0 e y :
   128 <= y < 256 ->
   err (next_field 0 {| pf := pf0; pw := pw0; buf := [y]; err := e |}) = Some (0, ETag).
 Proof.
-  intros Hy. unfold next_field. cbn [buf pf pw err length]. cbn [Z.ltb Z.compare orb Z.of_nat Z.to_nat skipn].
+  intros Hy. unfold next_field. rewrite not_has_len_z. cbn [buf pf pw err length]. cbn [Z.ltb Z.compare orb Z.of_nat Z.to_nat skipn].
   unfold consume_tag, consume_varint. cbn [consume_varint_from].
   replace (0 =? 9) with false by reflexivity.
   replace (y <? 128) with false by (symmetry; apply Z.ltb_ge; lia).
